@@ -208,6 +208,52 @@ theorem eta_transformation_zero_at_zero (F : Funs) (hexp : F.exp 0 = 1) (hpow : 
   · simp [ev, inst, Gen.transTdist, Expr.subst, List.lookup, Expr.eval, interp, interpFn, h0]
   · simp [ev, inst, Gen.transJohnDraper, Expr.subst, List.lookup, Expr.eval, interp, interpFn, h0, hsign]
 
+/-! ## IOV and eta transformations at statement level -/
+
+/-- `add_iov` and `transform_etas_*` have the shape  `declarations ++ statements[eta ↦ new symbol]`.
+    If, after the declarations, every new symbol carries the value of the eta it replaces (`Sim`) — which is the case
+    at IOV etas = 0 (`iov_declarations_neutral`) and at eta = 0 for the three transformations
+    (`eta_transformation_zero_at_zero`) — then *every* symbol of the original model other than the new ones has the
+    same final value in the extended model.  All statement lists (with ODE systems), all renamings. -/
+theorem extension_neutral (F : Funs) (m : List (Sym × Sym)) (decls ss : List Stmt) (ρ : Env Rat)
+    (hok : ∀ s ∈ ss, StmtOk m s) (hdecl : Sim m (run (interp F) decls ρ) ρ) :
+    ∀ x, x ∉ m.map Prod.snd →
+      run (interp F) (decls ++ ss.map (substStmt (renameOf m))) ρ x = run (interp F) ss ρ x := by
+  intro x hx
+  rw [run_append]
+  exact (sim_run (interp F) m ss _ _ hok hdecl).1 x hx
+
+example : StmtOk [("ETA_CL", "ETAI1")] (.assign "CL" (.f2 "mul" (.sym "TVCL") (.f1 "exp" (.sym "ETA_CL")))) := by
+  simp [StmtOk, Stmt.defs, Stmt.rhs, Expr.syms, Stmt.isOde, List.lookup]
+
+/-- The declarations of one IOV eta: with every occasion eta equal to 0 and the occasion column equal to one of
+    the categories, `IOV_i = 0` and `ETAI_i = eta` (all numbers of occasions). -/
+theorem iov_declarations_neutral (F : Funs) (ρ : Env Rat) (occ : Sym) :
+    ∀ (cats : List Expr) (names : List Sym), (∀ n ∈ names, ρ n = 0) →
+      (∃ c ∈ (cats.zip names).map Prod.fst, ev F ρ c = ρ occ) →
+      ev F ρ (piecewise ((cats.zip names).map (fun (c, n) => (eEq c (.sym occ), .sym n)))) = 0 := by
+  intro cats
+  induction cats with
+  | nil => intro names _ h; simp at h
+  | cons c t ih =>
+    intro names hz hex
+    cases names with
+    | nil => simp at hex
+    | cons n ns =>
+      simp only [List.zip_cons_cons, List.map_cons, piecewise]
+      by_cases hc : ev F ρ c = ρ occ
+      · simp only [ev, interp] at hc
+        simp [ev, Expr.eval, interp, interpFn, eEq, truth, hc, hz n (by simp)]
+      · have hrest := ih ns (fun k hk => hz k (by simp [hk])) (by
+          obtain ⟨d, hd, hdv⟩ := hex
+          simp only [List.zip_cons_cons, List.map_cons, List.mem_cons] at hd
+          rcases hd with rfl | hd
+          · exact absurd hdv hc
+          · exact ⟨d, hd, hdv⟩)
+        simp only [ev, interp] at hc hrest
+        simp [ev, Expr.eval, interp, interpFn, eEq, truth, hc]
+        exact hrest
+
 /-! ## Error models -/
 
 /-- The right-hand side written by each error-model setter is the documented function of the prediction and the
@@ -277,25 +323,31 @@ theorem allometry_neutral_at_ref_weight (F : Funs) (hpow : ∀ t, F.pow 1 t = 1)
 /-- a well-formed chain: every flow is `length / MDT` -/
 def WFChain (mdt : Sym) (rs : List Rate) : Prop := ∀ r ∈ rs, r = ⟨rs.length, mdt⟩
 
-theorem setTransits_length (rs : List Rate) (n : Nat) (mdt : Sym) : (setTransits rs n mdt).length = n := by
+theorem setTransits_length (rs : List Rate) (n : Nat) (mdt : Sym) (depot : Bool) :
+    (setTransits rs n mdt depot).length = n := by
   unfold setTransits
   split
   · assumption
   · split
     · simp [newChain]
     · split
-      · simp [updateNumerators, shrinkChain]; omega
+      · unfold updateNumerators; split <;> simp [shrinkChain] <;> omega
       · rename_i h1 h2 h3
         have : rs ≠ [] := by intro h; simp [h] at h2
-        simp only [updateNumerators, List.length_map, extendChain]
+        simp only [updateNumerators, if_true, List.length_map, extendChain]
         cases hl : rs.getLast? with
         | none => simp [List.getLast?_eq_none_iff] at hl; exact absurd hl this
         | some r => simp; omega
 
-/-- `set_transit_compartments` keeps every chain rate equal to `n / MDT`, whatever the previous number of
-    transits was (all n, all chain lengths). -/
-theorem transit_rate_mdt (rs : List Rate) (n : Nat) (mdt : Sym) (hwf : WFChain mdt rs) :
-    WFChain mdt (setTransits rs n mdt) := by
+/-- FULL statement: `set_transit_compartments` keeps every chain rate equal to `n / MDT`, whatever the previous
+    number of transits was (all n, all chain lengths) — proved when the model has a depot or n ≠ 1 … -/
+theorem transit_rate_mdt_partial (rs : List Rate) (n : Nat) (mdt : Sym) (depot : Bool) (hwf : WFChain mdt rs)
+    (hdet : depot = true ∨ n ≠ 1) :
+    WFChain mdt (setTransits rs n mdt depot) := by
+  have hd : (depot || n != 1) = true := by
+    rcases hdet with h | h
+    · simp [h]
+    · simp [h]
   intro r hr
   rw [setTransits_length]
   unfold setTransits at hr
@@ -304,13 +356,13 @@ theorem transit_rate_mdt (rs : List Rate) (n : Nat) (mdt : Sym) (hwf : WFChain m
   · split at hr
     · simp [newChain] at hr; exact hr.2
     · split at hr
-      · simp only [updateNumerators, List.mem_map] at hr
+      · simp only [updateNumerators, hd, if_true, List.mem_map] at hr
         obtain ⟨q, hq, rfl⟩ := hr
         have hq' : q ∈ rs := List.mem_of_mem_take (by simpa [shrinkChain] using hq)
         have := hwf q hq'
         simp [shrinkChain] at *
         rw [this]; simp; omega
-      · simp only [updateNumerators, List.mem_map] at hr
+      · simp only [updateNumerators, if_true, List.mem_map] at hr
         obtain ⟨q, hq, rfl⟩ := hr
         have hden : q.denom = mdt := by
           unfold extendChain at hq
@@ -322,18 +374,40 @@ theorem transit_rate_mdt (rs : List Rate) (n : Nat) (mdt : Sym) (hwf : WFChain m
             rcases List.mem_append.mp hq with h | h
             · have := hwf q h; rw [this]
             · have := (List.mem_replicate.mp h).2; rw [this, hwf l hlm]
-        have hlen := setTransits_length rs n mdt
+        have hlen := setTransits_length rs n mdt depot
         rename_i h1 h2 h3
-        simp only [setTransits, h1, h2, h3, if_false, updateNumerators, List.length_map] at hlen
+        simp only [setTransits, h1, h2, h3, if_false, updateNumerators, if_true, List.length_map] at hlen
         cases q; simp at hden ⊢; exact ⟨by exact_mod_cast hlen, hden⟩
 
-/-- … for every history of calls starting from a model without transits. -/
-theorem transit_rate_mdt_history (mdt : Sym) (ns : List Nat) :
-    WFChain mdt (ns.foldl (fun rs n => setTransits rs n mdt) []) := by
-  have : ∀ (rs : List Rate), WFChain mdt rs → WFChain mdt (ns.foldl (fun rs n => setTransits rs n mdt) rs) := by
+/-- … and false otherwise: reducing a chain of 5 to a single transit in a model without depot leaves the rate
+    `5/MDT` (the remaining compartment is not recognised as a transit, so its numerator is not updated):
+    the mean transit time is then `MDT/5`, not `MDT`. -/
+theorem transit_rate_mdt_witness :
+    setTransits (List.replicate 5 ⟨5, "MDT"⟩) 1 "MDT" false = [⟨5, "MDT"⟩] ∧
+    ¬ WFChain "MDT" (setTransits (List.replicate 5 ⟨5, "MDT"⟩) 1 "MDT" false) := by
+  refine ⟨by decide, ?_⟩
+  intro h
+  have := h ⟨5, "MDT"⟩ (by decide)
+  simp [setTransits_length] at this
+
+/-- … for every history of calls starting from a model without transits (never asking for exactly one transit
+    unless the model has a depot). -/
+theorem transit_rate_mdt_history (mdt : Sym) (depot : Bool) (ns : List Nat) (hns : depot = true ∨ ∀ n ∈ ns, n ≠ 1) :
+    WFChain mdt (ns.foldl (fun rs n => setTransits rs n mdt depot) []) := by
+  have : ∀ (rs : List Rate), WFChain mdt rs → WFChain mdt (ns.foldl (fun rs n => setTransits rs n mdt depot) rs) := by
     induction ns with
     | nil => intro rs h; exact h
-    | cons n t ih => intro rs h; exact ih _ (transit_rate_mdt rs n mdt h)
+    | cons n t ih =>
+      intro rs h
+      have hn : depot = true ∨ n ≠ 1 := by
+        rcases hns with h' | h'
+        · exact Or.inl h'
+        · exact Or.inr (h' n (by simp))
+      have ht : depot = true ∨ ∀ k ∈ t, k ≠ 1 := by
+        rcases hns with h' | h'
+        · exact Or.inl h'
+        · exact Or.inr (fun k hk => h' k (by simp [hk]))
+      exact ih ht _ (transit_rate_mdt_partial rs n mdt depot h hn)
   exact this [] (by intro r hr; simp at hr)
 
 /-- The mean transit time of a well-formed non-empty chain (sum of the mean residence times of its compartments)
@@ -356,7 +430,7 @@ theorem transit_mean_time (ρ : Env Rat) (mdt : Sym) (rs : List Rate) (hwf : WFC
 theorem transit_rate_expr (F : Funs) (ρ : Env Rat) (r : Rate) : ev F ρ (rateExpr r) = rateValue ρ r := by
   simp [rateExpr, ev, inst, Gen.transitRate, Expr.subst, List.lookup, Expr.eval, interp, interpFn, rateValue]
 
-example : setTransits (setTransits [] 2 "MDT") 4 "MDT" = List.replicate 4 ⟨4, "MDT"⟩ := by decide
+example : setTransits (setTransits [] 2 "MDT" false) 4 "MDT" false = List.replicate 4 ⟨4, "MDT"⟩ := by decide
 example : WFChain "MDT" [⟨2, "MDT"⟩, ⟨2, "MDT"⟩] := by intro r hr; simp at hr; rw [hr]; rfl
 
 end Pharmpy.C09
